@@ -22,7 +22,7 @@ def maskFromSubseq {α : Type} [DecidableEq α] : List α → List α → Nat
     bit lies beyond the parent; `none` here. -/
 def subseqFromMask {α : Type} : Nat → List α → Option (List α)
   | 0, _ => some []
-  | m + 1, [] => none
+  | _ + 1, [] => none
   | m + 1, p :: ps =>
     match subseqFromMask ((m + 1) / 2) ps with
     | none => none
